@@ -53,6 +53,8 @@ def concretise(ops):
             if "crash_at" in op:
                 c["crash_at"] = op["crash_at"]
             out.append(c)
+        elif n in ("obj_create", "obj_update", "obj_delete", "obj_remove"):
+            out.append({"op": n, "r": op["r"], "o": op["o"], "val": op["val"]})
         else:
             out.append({"op": n, "r": op["r"]})
     return out
